@@ -32,6 +32,8 @@ use crate::run::{ConsObs, Obs};
 use crate::script::{key_owner, Config, EndKind, Step};
 
 const P: &str = "C07";
+/// Inactivity rules at the level of the runtime (the vote coordinator itself is the `vote` engine's).
+const P17: &str = "C17";
 
 /// Where findings and coverage counters go: the case output, or a probe (oracle self-test).
 pub trait Sink {
@@ -148,6 +150,20 @@ pub fn witness(cfg: &Config, script: &[Step], obs: &Obs) -> Json {
             lines.push((*t, format!("-- quiet, virtual time {ms} ms --")));
         }
     }
+    if let Some((te, ms)) = obs.runtime_end {
+        lines.push((te, format!("**** the runtime task RETURNED by itself at virtual time {ms} ms ****")));
+    }
+    for (c, co) in obs.cons.iter().enumerate() {
+        if cfg.faults && co.attach_accepted {
+            lines.push((co.t_att.unwrap_or(0), format!("   (c{c}: attached at {} ms, reader dropped at {:?} ms, writer dropped/closed at {:?} ms)", co.att_ms, co.reader_drop_ms, co.writer_gone_ms)));
+        }
+    }
+    if let Some(fi) = &obs.final_idle {
+        lines.push((fi.t_end, format!(
+            "---- end of the final idle period: nobody attached, no traffic from {} ms to {} ms; runtime {} ----",
+            fi.from_ms, fi.until_ms, if fi.stopped { "terminated by itself" } else { "STILL RUNNING" }
+        )));
+    }
     lines.push((obs.q, format!("---- quiescent point (virtual time {} ms, runtime {}) ----", obs.ms_at_q, if obs.runtime_alive_at_q { "running" } else { "terminated" })));
     lines.sort();
     let lines: Vec<String> = lines.into_iter().take(400).map(|(_, s)| s).collect();
@@ -184,9 +200,13 @@ fn wants_full_witness(sig: &str) -> bool {
 
 impl<'a> Ctx<'a> {
     fn violate(&self, out: &mut dyn Sink, sig: String, what: String, extra: Json) {
+        self.violate_as(P, out, sig, what, extra)
+    }
+
+    fn violate_as(&self, property: &str, out: &mut dyn Sink, sig: String, what: String, extra: Json) {
         let mut d = if wants_full_witness(&sig) { witness(self.cfg, self.script, self.obs) } else { json!({"trace": "omitted (frequent signature)"}) };
         d["finding"] = extra;
-        out.violation(P, sig, what, d);
+        out.violation(property, sig, what, d);
     }
 }
 
@@ -586,6 +606,15 @@ pub fn check(cfg: &Config, script: &[Step], obs: &Obs, out: &mut dyn Sink) -> Su
                             format!("consumer {c} was attached and served ({i} frames), nothing closed the link, and yet the runtime stopped (inactivity) and told it `unlinked`"),
                             json!({"consumer": c, "frames_before_unlinked": i}),
                         );
+                        // The same observation refutes C17 at the level of the runtime: the read task
+                        // had this consumer on its lists (so no outstanding vote) when the stop began.
+                        cx.violate_as(
+                            P17,
+                            out,
+                            format!("downlink/stopped-while-consumer-attached/{lane}"),
+                            format!("consumer {c} was attached, served ({i} frames) and listening: the read task cannot have had an outstanding vote to stop, and yet the runtime stopped for inactivity"),
+                            json!({"consumer": c, "frames_before_unlinked": i}),
+                        );
                     } else {
                         out.count("inactivity/unlinked-on-arrival-at-a-stopping-runtime");
                     }
@@ -660,9 +689,148 @@ pub fn check(cfg: &Config, script: &[Step], obs: &Obs, out: &mut dyn Sink) -> Su
         out.count("runtime-stopped-after-all-consumers-left");
     }
 
+    check_inactivity(&cx, out);
+
     // (a lane that dropped its reader sees no further commands: nothing can be said about arrivals)
     check_socket(&cx, out, settled && t_drop.is_none());
     sum
+}
+
+/// C17, seen from outside the downlink runtime (finite `empty_timeout`, paused clock).
+///
+/// What the runtime's tasks do (runtime/swimos_runtime/src/downlink/mod.rs): the write task votes to
+/// stop when it has been idle with no consumer's command stream registered for `empty_timeout`, the
+/// read task when its lists of consumers have been empty for `empty_timeout`; each withdraws its vote
+/// when a consumer is registered with it; the runtime stops when both votes are outstanding at once.
+/// The write task learns of a departure when the command stream ends (at once when it is not parked
+/// on a write), the read task only when forwarding to the consumer fails (an event is buffered, its
+/// flush fails, the next input lets the task look at that result).
+///
+/// Rule S (safety): a stop for inactivity needs both votes, each of which needs a whole timeout
+/// without a consumer, so the runtime cannot stop less than one timeout after the script attached a
+/// consumer that was served, dropped the reader of one, or dropped / closed the command writer of one.
+/// Instants are virtual milliseconds at script steps and in the runtime's own task; work in the very
+/// instant of the stop is skipped (its order relative to the stop is not observable).
+/// A stop is *the decision*: with both votes outstanding the write task is idle and flushed and the
+/// read task's lists are empty, so both return in the instant of the decision.
+///
+/// Rule L (bounded progress): after everybody has left (both halves), the lane has sent three more
+/// events with a quiet point after each, every brake is released, and nothing at all has happened for
+/// five timeouts, the runtime has terminated by itself.
+fn check_inactivity(cx: &Ctx<'_>, out: &mut dyn Sink) {
+    let (cfg, obs) = (cx.cfg, cx.obs);
+    if !cfg.faults {
+        // (the other parts run with an `empty_timeout` longer than any script)
+        return;
+    }
+    let lane = cfg.kind.name();
+    let t = cfg.timeout_ms;
+    let lane_fault = obs.lane.reader_dropped.is_some() || obs.lane.writer_closed.is_some();
+    let closing_end = matches!(cfg.end, EndKind::LaneUnlinked | EndKind::SocketClosed | EndKind::StopTrigger);
+
+    // ---- how consumers came and went ------------------------------------------------------------------
+    let mut come_and_go = false;
+    for co in &obs.cons {
+        if !co.attach_accepted {
+            continue;
+        }
+        if let Some(ms) = co.idle_ms_before_attach {
+            // somebody had been there before and had left
+            if obs.cons.iter().any(|o| o.attach_accepted && o.reader_drop_ms.map_or(false, |r| r <= co.att_ms) && o.t_att < co.t_att) {
+                come_and_go = true;
+                let class = if ms + 3 < t {
+                    "well-below-the-timeout"
+                } else if ms < t {
+                    "just-below-the-timeout"
+                } else if ms == t {
+                    "at-the-timeout"
+                } else if ms <= t + 3 {
+                    "just-above-the-timeout"
+                } else {
+                    "well-above-the-timeout"
+                };
+                out.count(&format!("c17/arrival-after-everybody-had-left/gap-{class}"));
+                if !co.frames.is_empty() {
+                    out.count("c17/arrival-after-everybody-had-left/served");
+                }
+            }
+        }
+    }
+    if come_and_go {
+        out.count("c17/conversations-with-come-and-go");
+    }
+
+    // ---- rule S ------------------------------------------------------------------------------------
+    // A stop by inactivity: the runtime returned by itself, nothing failed, nothing closed the link.
+    let by_inactivity = match obs.runtime_end {
+        Some((t_end, _)) => !lane_fault && obs.runtime_panic.is_none() && (t_end < obs.q || !closing_end),
+        None => false,
+    };
+    if let (true, Some((_, ms_end))) = (by_inactivity, obs.runtime_end) {
+        out.count("c17/runtimes-stopped-by-inactivity");
+        if ms_end < t {
+            // (both tasks start with a timer of one timeout)
+            cx.violate_as(
+                P17,
+                out,
+                format!("downlink/stopped-early/{lane}/before-the-first-timeout"),
+                format!("the runtime stopped for inactivity {ms_end} ms after it was started, `empty_timeout` is {t} ms"),
+                json!({"stopped_at_ms": ms_end, "timeout_ms": t}),
+            );
+        }
+        'cons: for (c, co) in obs.cons.iter().enumerate() {
+            // Only a consumer the runtime served: the attachment task has handed it to both tasks.
+            if !co.attach_accepted || co.frames.is_empty() {
+                continue;
+            }
+            for (what, at) in [("consumer-attached", Some(co.att_ms)), ("reader-left", co.reader_drop_ms), ("writer-left", co.writer_gone_ms)] {
+                let Some(at) = at else { continue };
+                if at >= ms_end {
+                    continue;
+                }
+                out.count("c17/stops-checked-against-earlier-work");
+                if ms_end - at < t {
+                    cx.violate_as(
+                        P17,
+                        out,
+                        format!("downlink/stopped-early/{lane}/{what}"),
+                        format!(
+                            "the runtime stopped for inactivity at {ms_end} ms, {} ms after the event `{what}` of consumer {c} (a consumer it had served): less than `empty_timeout` = {t} ms, so one of its tasks cannot have had an outstanding vote",
+                            ms_end - at
+                        ),
+                        json!({"consumer": c, "work": what, "work_at_ms": at, "stopped_at_ms": ms_end, "timeout_ms": t}),
+                    );
+                    break 'cons;
+                }
+            }
+        }
+    }
+
+    // ---- rule L ------------------------------------------------------------------------------------
+    if let Some(fi) = &obs.final_idle {
+        if !fi.runtime_alive_before {
+            out.count("c17/final-idle-periods/runtime-had-stopped-before");
+        } else if lane_fault || obs.runtime_panic.is_some() || !obs.stuck.is_empty() || fi.events_after_departure < 2 {
+            out.count("c17/final-idle-periods/not-judged");
+        } else {
+            out.count("c17/final-idle-periods/judged");
+            if fi.stopped {
+                out.count("c17/final-idle-periods/runtime-stopped-within");
+            } else {
+                cx.violate_as(
+                    P17,
+                    out,
+                    format!("downlink/idle-runtime-never-stopped/{lane}"),
+                    format!(
+                        "every consumer has left (both halves), the lane sent {} more events with a quiet point after each, nothing is stalled, and nothing happened for {} ms = five times `empty_timeout` and more: the runtime task is still running",
+                        fi.events_after_departure,
+                        fi.until_ms - fi.from_ms
+                    ),
+                    json!({"idle_from_ms": fi.from_ms, "idle_until_ms": fi.until_ms, "timeout_ms": t}),
+                );
+            }
+        }
+    }
 }
 
 fn sent_of(co: &ConsObs) -> Vec<&Cmd> {
